@@ -66,11 +66,20 @@ EDITS_TEMPLATE = [
 ]
 
 
+# a variable that a place-holder refers to is overridden / removed-and-added: the place-holder follows the value in effect
+EDITS_VARIABLE = [
+  (["--override-item", "Variables:amp=500.0"], lambda t: t.replace("amp : 1000.0", "amp : 500.0")),
+  (["--remove-item", "Variables:amp", "--add-item", "Variables:amp=250.0"], lambda t: t.replace("amp : 1000.0", "amp : 250.0")),
+  (["--override-item", "Variables:amp=${base_amp}", "--add-item", "Variables:base_amp=125.0"], lambda t: t.replace("amp : 1000.0", "amp : 125.0")),
+]
+
+
 def differential_case(target):
   res = new_result("potable overrides vs hand-edited file: %s" % target)
   base = (EAM_TEXT if target in ("setfl", "DL_POLY_EAM") else PAIR_TEXT) % dict(target=target, nr=8 if target == "DL_POLY" else 5)
   template = base.replace("B-B : f 2.0", DANGLING)
-  for args, edit, base in [(a, e, base) for a, e in EDITS] + [(a, e, template) for a, e in EDITS_TEMPLATE]:
+  with_variable = "[Variables]\namp : 1000.0\n\n" + base.replace("as.buck 1000.0", "as.buck ${amp}")
+  for args, edit, base in [(a, e, base) for a, e in EDITS] + [(a, e, template) for a, e in EDITS_TEMPLATE] + [(a, e, with_variable) for a, e in EDITS_VARIABLE]:
     got = c13.run_potable(base, args)
     res["replays"] += 1
     res["paths"] += 1
